@@ -8,6 +8,7 @@ import XzVerif.Lemmas.XzLocal
 import XzVerif.Lemmas.XzFlip
 import XzVerif.Model.XzEnv
 import XzVerif.Lemmas.LzmaCausalTop
+import XzVerif.Lemmas.XzLoopAgree
 
 namespace XzVerif.XzEnv
 open XzVerif XzVerif.Container XzVerif.XzDecode
@@ -52,6 +53,14 @@ theorem payloadWith_eq (dd : Nat → List UInt8 → List UInt8) (filters : List 
           | none => rfl
           | some pre => rfl
 
+theorem chainOf_ret (dd : Nat → List UInt8 → List UInt8) (fs : List Filter) :
+    (∃ r, chainOf dd fs = .error r ∧ (fail r).ret ≠ .formatError) ∨ (∃ ch, chainOf dd fs = .ok ch) := by
+  unfold chainOf
+  repeat' split
+  all_goals first
+    | exact Or.inl ⟨_, rfl, by simp [fail]⟩
+    | exact Or.inr ⟨_, rfl⟩
+
 theorem payloadWith_local (dd : Nat → List UInt8 → List UInt8) (fs : List Filter) (x y : List UInt8) (cap : Nat)
     (hend : (payloadWith dd fs x cap).ret = .streamEnd) (hle : (payloadWith dd fs x cap).consumed ≤ x.length)
     (htake : x.take (payloadWith dd fs x cap).consumed = y.take (payloadWith dd fs x cap).consumed) :
@@ -86,5 +95,15 @@ theorem payloadLocal_fast : PayloadLocal fastEnv :=
 
 theorem payloadBounded_fast : PayloadBounded fastEnv :=
   fun fs x cap => payloadWith_bounded deltaFast fs x cap
+
+theorem payloadWith_ne_formatError (dd : Nat → List UInt8 → List UInt8) (fs : List Filter) (x : List UInt8) (cap : Nat) :
+    (payloadWith dd fs x cap).ret ≠ .formatError := by
+  rw [payloadWith_eq]
+  cases chainOf_ret dd fs with
+  | inl h => obtain ⟨r, hr, hne⟩ := h; rw [hr]; exact hne
+  | inr h => obtain ⟨ch, hc⟩ := h; rw [hc]; exact Lzma2.rawDecode_ne_formatError ch x cap
+
+/-- only the Stream Header of the standard environment's decoder can answer LZMA_FORMAT_ERROR -/
+theorem noFormatError_std : NoFormatError stdEnv := fun fs x cap => payloadWith_ne_formatError Delta.decodeAll fs x cap
 
 end XzVerif.XzEnv
